@@ -794,6 +794,67 @@ func ruleP25(r *Run) {
 				return true
 			})
 			if !givesUp {
+				// ... or in a helper of the package that is given the channel and waits on it in such a select - called by the
+				// function itself, not started as a goroutine (that one is the other end)
+				goCalls := map[*ast.CallExpr]bool{}
+				ast.Inspect(fd.Body, func(m ast.Node) bool {
+					if gs, ok := m.(*ast.GoStmt); ok {
+						goCalls[gs.Call] = true
+					}
+					return true
+				})
+				ast.Inspect(fd.Body, func(m ast.Node) bool {
+					if _, isLit := m.(*ast.FuncLit); isLit {
+						return false
+					}
+					c, ok := m.(*ast.CallExpr)
+					if !ok || goCalls[c] {
+						return true
+					}
+					d, cpkg := p.calleeDecl(info, c)
+					if d == nil || cpkg != pkg || d.Body == nil {
+						return true
+					}
+					params := paramsOf(info, d.Type)
+					for i, a := range c.Args {
+						if identObj(info, a) != o || i >= len(params) || params[i] == nil {
+							continue
+						}
+						pv := params[i]
+						ast.Inspect(d.Body, func(q ast.Node) bool {
+							sel, ok := q.(*ast.SelectStmt)
+							if !ok {
+								return true
+							}
+							receives, other := false, false
+							for _, cs := range sel.Body.List {
+								cc := cs.(*ast.CommClause)
+								if cc.Comm == nil {
+									continue
+								}
+								mine := false
+								ast.Inspect(cc.Comm, func(k ast.Node) bool {
+									if u, ok := k.(*ast.UnaryExpr); ok && u.Op == token.ARROW && identObj(info, u.X) == types.Object(pv) {
+										mine = true
+									}
+									return true
+								})
+								if mine {
+									receives = true
+								} else if endsInJump(cc.Body) {
+									other = true
+								}
+							}
+							if receives && other {
+								givesUp = true
+							}
+							return true
+						})
+					}
+					return true
+				})
+			}
+			if !givesUp {
 				continue
 			}
 			n++
@@ -912,11 +973,25 @@ func ruleG62(r *Run) {
 	p := r.P
 	n := 0
 	p.EachFunc(func(pkg *packages.Package, fd *ast.FuncDecl) {
-		if p.RelPkg(pkg.Types) != "rpc/core" || fd.Recv == nil {
+		if p.RelPkg(pkg.Types) != "rpc/core" {
 			return
 		}
 		info := pkg.TypesInfo
-		if t := info.TypeOf(fd.Recv.List[0].Type); t == nil || !strings.HasSuffix(t.String(), ".TagParser") {
+		// a method of the tag parser, or a function that takes a tag's items apart itself (parseHeader / parseContext inlined
+		// into ParseTag)
+		subject := false
+		if fd.Recv != nil {
+			if t := info.TypeOf(fd.Recv.List[0].Type); t != nil && strings.HasSuffix(t.String(), ".TagParser") {
+				subject = true
+			}
+		}
+		ast.Inspect(fd.Body, func(m ast.Node) bool {
+			if c, ok := m.(*ast.CallExpr); ok && refName(methodName(c)) == "parseMap" {
+				subject = true
+			}
+			return true
+		})
+		if !subject {
 			return
 		}
 		parents := parentMap(fd.Body)
@@ -1153,7 +1228,7 @@ func ruleG63(r *Run) {
 					}
 					return true
 				})
-				for _, fc := range collectFacts(parents, as) {
+				for _, fc := range factsWithSwitch(parents, as) {
 					if o := identObj(info, fc.e); o != nil && okVars[o] && fc.neg {
 						free = true
 					}
